@@ -847,6 +847,32 @@ func ruleMinkowski(rule string) func(*Ctx) {
 				}
 			}
 		}
+		if bad == "" && nDelta == 1 && nG == 0 {
+			// the other formulation: no carried predecessor index, but g = i-1 with g = len(path)-1 for i == 0
+			// (i starts at delta, so the wrap is taken exactly for closed paths)
+			for _, b := range f.Blocks {
+				for _, in := range b.Instrs {
+					phi, ok := in.(*ssa.Phi)
+					if !ok {
+						continue
+					}
+					tv, fv, cond := phiByCond(phi)
+					cmp, ok := cond.(*ssa.BinOp)
+					if !ok || !isConstInt(cmp.Y, 0) || (cmp.Op != token.EQL && cmp.Op != token.NEQ) {
+						continue
+					}
+					if cmp.Op == token.NEQ {
+						tv, fv = fv, tv
+					}
+					wrap, okw := tv.(*ssa.BinOp)
+					prev, okp := fv.(*ssa.BinOp)
+					if okw && okp && wrap.Op == token.SUB && isConstInt(wrap.Y, 1) && isLenOf(wrap.X, param(f, "path", 1)) &&
+						prev.Op == token.SUB && isConstInt(prev.Y, 1) && sameIntValue(prev.X, cmp.X) {
+						nG++
+					}
+				}
+			}
+		}
 		if bad == "" && (nDelta != 1 || nG != 1) {
 			bad = fmt.Sprintf("expected one step and one first-predecessor value selected by isClosed, found %d and %d", nDelta, nG)
 		}
